@@ -162,31 +162,49 @@ def r1(ctx):
 
 
 def r2(ctx):
+    """as_fingerprint evaluated (K6' with abstract collections): which components of the entry are fed to the hasher,
+    and that the fingerprint is that hash"""
+    from . import feval as E, coll
     f = ctx.facts
     b = f.body("<sync::SignedEntry as ranger::RangeEntry>::as_fingerprint")
-    ctx.touch(b)
-    ups = [t for _, t in b.calls() if t["f"].get("name") == "update"]
+    ctx.touch(*f.scope(b.path, prefix="sync::"))
     fed = []
-    for t in ups:
-        names = set()
-        for o in trace(b, t["a"][1], through_calls=False):
-            cur = o
-            depth = 0
-            while cur is not None and cur.kind == "call" and depth < 5:
-                names.add(cur.data["f"].get("name"))
-                nxt = trace(b, cur.data["a"][0], through_calls=False) if cur.data["a"] else []
-                cur = nxt[0] if len(nxt) == 1 else None
-                depth += 1
-        fed.append(names)
+    C = coll.Collections(f)
+    ACC = ("namespace", "author", "author_bytes", "key", "key_bytes", "timestamp", "content_hash", "content_len", "id", "entry", "record", "signature", "namespace_bytes")
+
+    def oracle(kind, name, payload, site):
+        if kind != "call":
+            return None
+        t, args, it = payload
+        names = [it.tokname(a) for a in args]
+        full = (t["f"].get("full") or "") + (t["f"].get("path") or "")
+        if name == "new" and "blake3::Hasher" in full:
+            return E.Tok("hasher")
+        if name in ("update", "update_rayon") and names and names[0] == "hasher":
+            fed.append(names[1])
+            return args[0]
+        if name == "finalize" and names and names[0] == "hasher":
+            return E.Tok("digest(%s)" % "+".join(fed))
+        if name in ACC and len(args) == 1 and "?" not in names[0]:
+            return E.Tok("%s(%s)" % (name, names[0]))
+        if name in ("to_be_bytes", "to_le_bytes", "to_bytes"):
+            return E.Tok("%s(%s)" % (name, names[0]))
+        if name in ("as_ref", "as_bytes", "as_slice", "deref", "borrow", "as_array") and len(args) == 1:
+            return args[0]
+        return C.handle(kind, name, payload, site)
+    try:
+        ret, it_ = E.run_it(f, b.path, [E.href("self")], {"self": E.Tok("e")}, oracle)
+        got = E.describe(it_.resolve(ret), f)
+    except E.Unsupported as ex:
+        got = "UNSUPPORTED-FORM: %s" % ex
     # `id()` (the RecordIdentifier = namespace || author || key) covers the three identifying components at once
-    need = {"namespace": {"namespace", "id"}, "author": {"author_bytes", "author", "id"}, "key": {"key", "id"}, "timestamp": {"timestamp"}, "content hash": {"content_hash"}}
+    need = {"namespace": ("namespace(", "namespace_bytes(", "id("), "author": ("author_bytes(", "author(", "id("), "key": ("key(", "key_bytes(", "id("), "timestamp": ("timestamp(",), "content hash": ("content_hash(",)}
     for what, alts in need.items():
-        ok = any(n & alts for n in fed)
-        ctx.check(ok, "C01.R2", b.path, "fingerprint-covers-%s" % what.replace(" ", "-"),
-                  "hasher.update(..%s..) present: %s" % ("|".join(sorted(alts)), ok), b.sp)
-    fin = [t for _, t in b.calls() if t["f"].get("name") == "finalize"]
-    ctx.check(len(fin) == 1, "C01.R2", b.path, "fingerprint-is-the-hash", "Fingerprint(hasher.finalize().into())", b.sp)
-    # all receivers are self
+        # the component itself is fed, not something merely derived from it together with other data: the fed value is the accessor chain
+        ok = any(x.startswith(a) or ("(" + a) in x for x in fed for a in alts)
+        ctx.check(ok and not got.startswith("UNSUPPORTED"), "C01.R2", b.path, "fingerprint-covers-%s" % what.replace(" ", "-"),
+                  "values fed to the hasher: %s; result %s" % (fed, got[:80]), b.sp)
+    ctx.check(got.startswith("Fingerprint(") and "digest(" in got, "C01.R2", b.path, "fingerprint-is-the-hash", "returns %s (spec: Fingerprint of the hasher's digest over everything fed)" % got[:160], b.sp)
     ctx.floor("C01.R2", 6)
 
 
